@@ -150,6 +150,14 @@ def sc_assembly(V, P, cfg, chk=None):
                 em = wrap(em)
         else:
             em = V.reals("Ke", (nd, nd))
+        if cfg.get("elmat_layout") == "transposed-view":
+            # the same matrix handed over as a view that is not C-contiguous (e.g. loaded column-major, or `.T` of a work array)
+            store = np.array(np.asarray(em).T, order="C")
+            em = store.T
+            if V.symbolic:
+                from symx.array import wrap
+                em = wrap(em)
+            assert not em.flags["C_CONTIGUOUS"]
         if cfg.get("add_constant"):
             n = ndof * M.nnodes
             const = V.reals("Kc", (n, n))
@@ -348,6 +356,9 @@ def items(tier):
         add("general-%s-ndof1-const-csr" % tag, which="general", mesh=mesh, ndof=1, add_constant=True, csr=True)
         add("general-%s-ndof2-symelmat" % tag, which="general", mesh=mesh, ndof=2, symmetric_elmat=True,
             csr=True)
+        add("general-%s-ndof1-elmat-transposed-view" % tag, which="general", mesh=mesh, ndof=1, elmat_layout="transposed-view")
+        add("general-%s-ndof2-elmat-transposed-view-bc1" % tag, which="general", mesh=mesh, ndof=2, bc=_bcsets(M, 2)["one"],
+            elmat_layout="transposed-view")
         # --- stiffness
         planes = ("strain", "stress") if M.dim == 2 else ("3d",)
         for pl in planes:
